@@ -2597,6 +2597,136 @@ theorem dreserialize_stable_direct (s : DStore) (g : Val) (G : Graph Nat) (hl : 
     rw [this]
 
 
+/-! ### `validate_graph` looks at attribute dicts only -/
+
+/-- `validate` on the lists of node / edge attribute dicts -/
+def findA (ns : List Attrs) (g nid : Val) : Except String Attrs :=
+  match (ns.filter fun a => a.get? "GraphID" == some g).filter (fun a => a.get? "NodeID" == some nid) with
+  | [] => .error "query"
+  | [a] => .ok a
+  | _ => .error "query"
+
+def checkA (names : List String) (jsonOk : String → Bool) (ns : List Attrs) (g : Val) (a : Attrs) : Except String Unit :=
+  match a.get? "NodeID" with
+  | none => .error "key"
+  | some nid =>
+    match findA ns g nid with
+    | .error e => .error e
+    | .ok m =>
+      if (m.get? "Class").isNone then .error "key"
+      else forE (checkJsonProp jsonOk m) names
+
+def validateA (names : List String) (jsonOk : String → Bool) (ns es : List Attrs) (g : Val) : Except String Unit :=
+  if (ns.filter fun a => a.get? "GraphID" == some g).isEmpty then .error "query"
+  else
+    match forE (checkA names jsonOk ns g) (ns.filter fun a => a.get? "GraphID" == some g) with
+    | .error e => .error e
+    | .ok _ => if ns.all hasClass && es.all hasClass then .ok () else .error "import"
+
+theorem graphNodes_attrs (s : Store) (g : Val) :
+    (s.graphNodes g).map (·.attrs) = (s.nodes.map (·.attrs)).filter fun a => a.get? "GraphID" == some g := by
+  simp only [Store.graphNodes, List.filter_map]
+  rfl
+
+theorem forE_map {α β : Type} (m : α → β) (f : β → Except String Unit) : ∀ l : List α, forE f (l.map m) = forE (f ∘ m) l
+  | [] => rfl
+  | a :: t => by
+    simp only [List.map_cons, forE, Function.comp_apply]
+    cases f (m a) with
+    | error e => rfl
+    | ok u => exact forE_map m f t
+
+theorem findNode_attrs (s : Store) (g nid : Val) :
+    (match findNode s g nid with | .ok m => Except.ok m.attrs | .error e => .error e) = findA (s.nodes.map (·.attrs)) g nid := by
+  unfold findNode findA
+  rw [← graphNodes_attrs, List.filter_map]
+  have : ((fun a : Attrs => a.get? "NodeID" == some nid) ∘ fun n : SNode => n.attrs) = fun n : SNode => n.attrs.get? "NodeID" == some nid := rfl
+  rw [this]
+  generalize (s.graphNodes g).filter (fun n => n.attrs.get? "NodeID" == some nid) = l
+  rcases l with _ | ⟨a, _ | ⟨b, t⟩⟩ <;> rfl
+
+theorem checkNode_attrs (names : List String) (jsonOk : String → Bool) (s : Store) (g : Val) (n : SNode) :
+    checkNode names jsonOk s g n = checkA names jsonOk (s.nodes.map (·.attrs)) g n.attrs := by
+  unfold checkNode checkA
+  cases n.attrs.get? "NodeID" with
+  | none => rfl
+  | some nid =>
+    simp only
+    rw [← findNode_attrs]
+    cases findNode s g nid <;> rfl
+
+/-- **`validate_graph()` depends on the attribute dicts of the store's nodes and edges only**, not on internal ids -/
+theorem validate_attrs (names : List String) (jsonOk : String → Bool) (s : Store) (g : Val) :
+    validate names jsonOk s g = validateA names jsonOk (s.nodes.map (·.attrs)) (s.edges.map (·.attrs)) g := by
+  unfold validate validateA
+  rw [← graphNodes_attrs, forE_map]
+  have hc : (checkA names jsonOk (s.nodes.map (·.attrs)) g ∘ fun n : SNode => n.attrs) = checkNode names jsonOk s g := by
+    funext n; exact (checkNode_attrs names jsonOk s g n).symm
+  rw [hc]
+  simp only [List.isEmpty_map, List.all_map, Function.comp_def]
+  by_cases he : (s.graphNodes g).isEmpty = true
+  · simp only [he, if_true]
+  · simp only [he]
+    cases forE (checkNode names jsonOk s g) (s.graphNodes g) <;> rfl
+
+theorem validateA_mono (names : List String) (jsonOk : String → Bool) (ns es es' : List Attrs) (g : Val)
+    (hsub : ∀ a ∈ es', a ∈ es) (h : validateA names jsonOk ns es g = .ok ()) : validateA names jsonOk ns es' g = .ok () := by
+  unfold validateA at h ⊢
+  split at h
+  · cases h
+  · rename_i hne
+    simp only [hne, if_false]
+    cases hf : forE (checkA names jsonOk ns g) (ns.filter fun a => a.get? "GraphID" == some g) with
+    | error e => simp [hf] at h
+    | ok u =>
+      simp only [hf] at h ⊢
+      split at h
+      · rename_i hall
+        simp only [Bool.and_eq_true, List.all_eq_true] at hall
+        have : (ns.all hasClass && es'.all hasClass) = true := by
+          simp only [Bool.and_eq_true, List.all_eq_true]
+          exact ⟨hall.1, fun a ha => hall.2 a (hsub a ha)⟩
+        exact if_pos this
+      · cases h
+
+/-- **validation after a round trip on the disjoint store (direct entry points / `Topology.load`)**: if `validate_graph()`
+    passes for the held model, it passes for the model found after serializing and loading it back -/
+theorem dvalidates_after_import_direct (names : List String) (jsonOk : String → Bool)
+    (s : DStore) (g : Val) (G : Graph Nat) (hl : s.graphs.lookup g = some G)
+    (hok : DGraphOk g G) (hne : G.nodes ≠ [])
+    (f : Fmt) (hk : f = .graphml → KeysNodup (DStore.copyGraph G)) (hr : f = .json → NoReserved (DStore.copyGraph G))
+    (doc : Doc Nat) (hser : (dSerialize s g f).1 = .ok doc)
+    (hv : (dValidate names jsonOk s g).1 = .ok ()) :
+    (dValidate names jsonOk (dImportDirect s doc).2 g).1 = .ok () := by
+  have hv0 : validate names jsonOk (storeOfGraph G) g = .ok () := by
+    unfold dValidate at hv; rw [hl] at hv; exact hv
+  suffices h : ∃ G', (dImportDirect s doc).2.graphs.lookup g = some G' ∧ validate names jsonOk (storeOfGraph G') g = .ok () by
+    obtain ⟨G', h1, h2⟩ := h
+    unfold dValidate; rw [h1]; exact h2
+  clear hv
+  have hv := hv0
+  obtain ⟨_, hread⟩ := dreadDoc_serialize s g G hl hok.1 f hk hr doc hser
+  have hgid := getGraphId_of_all doc (DStore.copyGraph G) hread hne g hok.2
+  have hst : (dImportDirect s doc).2 = s.addGraphDirect g (DStore.copyGraph G) := by
+    unfold dImportDirect
+    rw [hgid]
+    simp only [hread]
+  refine ⟨Store.relabelFrom (DStore.copyGraph G) 1, ?_, ?_⟩
+  · rw [hst]
+    simp only [DStore.addGraphDirect, disjointFirst_eval, DStore.lookup_put]
+  · rw [validate_attrs] at hv ⊢
+    have hnodes : (storeOfGraph (Store.relabelFrom (DStore.copyGraph G) 1)).nodes.map (·.attrs) = (storeOfGraph G).nodes.map (·.attrs) := by
+      simp [storeOfGraph, Store.relabelFrom, Graph.relabel, DStore.copyGraph, List.map_map, Function.comp_def]
+    rw [hnodes]
+    apply validateA_mono names jsonOk _ _ _ g _ hv
+    intro a ha
+    simp only [storeOfGraph, Store.relabelFrom, Graph.relabel, List.mem_map] at ha ⊢
+    obtain ⟨e, ⟨e0, he0, rfl⟩, rfl⟩ := ha
+    obtain ⟨_, _, e1, he1, hat1, _⟩ := mem_iterFrom _ _ _ e0 he0
+    obtain ⟨_, _, e2, he2, hat2, _⟩ := mem_iterFrom G.edges G.keys [] e1 he1
+    exact ⟨e2, he2, by rw [← hat2, ← hat1]⟩
+
+
 /-! ### `enumerate_graph_nodes` and `nx_write_graphml` -/
 
 /-- every node carries a non-empty string `NodeID` (what the library's own models satisfy) -/
@@ -2696,5 +2826,7 @@ example : ∃ ops : List DSessOp, ops.length = 4 ∧ ∀ op ∈ ops, op.Ok :=
     · exact ⟨by decide, exDoc_wf⟩
     · trivial
     · exact fun _ h => h⟩
+
+example : (dValidate FimVerif.Gen.Serial.jsonPropertyNames (fun _ => true) exDStore (.str "g")).1 = .ok () := rfl
 
 end FimVerif.C01
